@@ -378,7 +378,7 @@ func (w *ew) pollerActor() {
 			}
 		}
 		if st.Stall > 0 {
-			w.Tty.Faults["stall_poller"]++
+			w.Tty.Faults.Inc("stall_poller")
 			simrt.Sleep("poller.stall", hx.Ms(st.Stall))
 		}
 	}
@@ -471,7 +471,7 @@ func (w *ew) resize(nw, nh int) {
 		w, h int
 		at   time.Duration
 	}{nw, nh, w.S.Now()})
-	w.Tty.Faults["resize"]++
+	w.Tty.Faults.Inc("resize")
 	simrt.Yield("term.resized")
 	w.Tty.FireResize()
 }
@@ -656,7 +656,7 @@ func run(t *rapid.T, mode string) {
 		tag := mode + "/panic"
 		w.Failf(tag, "panic in simulated goroutine: %s", pn)
 	}
-	hx.St.Record(s, w.Tty.Faults, func() interface{} { return w.sample() })
+	hx.St.Record(s, w.Tty.Faults.Map(), func() interface{} { return w.sample() })
 	fail := w.Fail
 	trace := s.Trace
 	blocked := s.Blocked()
@@ -676,7 +676,7 @@ func (w *ew) sample() interface{} {
 		"config": w.Cfg.String(), "term_steps": len(w.p.Term), "input_events": len(w.wantIn),
 		"delivered": len(w.gotIn), "posters": len(w.p.Posters), "shutdown": w.p.Shutdown.Kind,
 		"decisions": w.S.Steps, "switches": w.S.Switches, "preemptions": w.S.Preempts,
-		"faults": w.Tty.Faults, "signature": fmt.Sprintf("%x", w.S.Hash()),
+		"faults": w.Tty.Faults.Map(), "signature": fmt.Sprintf("%x", w.S.Hash()),
 	}
 }
 
